@@ -71,3 +71,24 @@ for bits in (1031, 2040, 2041, 2047, 2049, 3071):
         out[str(bits)] = make(bits)
     print("rsa", bits, file=sys.stderr)
 Path(__file__).resolve().parent.parent.joinpath("corpus", "special_rsa.json").write_text(json.dumps(out, indent=1) + "\n")
+
+# RSA private keys one of whose secret integers is at least one octet shorter than its usual width (d shorter than n;
+# dp, dq, qi shorter than the primes): a fixed-width export would carry a leading zero octet, which is not minimal
+# big-endian form.  Stored as PKCS#8 PEM (the export route that does not replay a received dict) plus the expected JWK.
+from cryptography.hazmat.primitives import serialization  # noqa: E402
+short = {}
+tries = 0
+while len(short) < 4 and tries < 200000:
+    tries += 1
+    k = rsa.generate_private_key(65537, 1024)
+    pn = k.private_numbers()
+    nlen = (pn.public_numbers.n.bit_length() + 7) // 8
+    plen = (max(pn.p, pn.q).bit_length() + 7) // 8
+    for name, v, width in (("d", pn.d, nlen), ("dp", pn.dmp1, plen), ("dq", pn.dmq1, plen), ("qi", pn.iqmp, plen)):
+        if (v.bit_length() + 7) // 8 < width and "short_" + name not in short:
+            pem = k.private_bytes(serialization.Encoding.PEM, serialization.PrivateFormat.PKCS8, serialization.NoEncryption()).decode()
+            short["short_" + name] = {"pem": pem, "jwk": {"kty": "RSA", "n": _b64(pn.public_numbers.n), "e": _b64(pn.public_numbers.e),
+                                      "d": _b64(pn.d), "p": _b64(pn.p), "q": _b64(pn.q), "dp": _b64(pn.dmp1), "dq": _b64(pn.dmq1),
+                                      "qi": _b64(pn.iqmp)}}
+            print("rsa", "short_" + name, "after", tries, file=sys.stderr)
+Path(__file__).resolve().parent.parent.joinpath("corpus", "special_rsa_short.json").write_text(json.dumps(short, indent=1) + "\n")
